@@ -4,7 +4,11 @@ go 1.23.0
 
 toolchain go1.24.1
 
-require github.com/janelia-flyem/dvid v0.0.0
+require (
+	github.com/golang/snappy v0.0.4
+	github.com/janelia-flyem/dvid v0.0.0
+	github.com/janelia-flyem/go v0.0.0-20180718195536-d388bdc31871
+)
 
 require (
 	cloud.google.com/go v0.110.0 // indirect
@@ -40,7 +44,6 @@ require (
 	github.com/golang/glog v1.2.4 // indirect
 	github.com/golang/groupcache v0.0.0-20210331224755-41bb18bfe9da // indirect
 	github.com/golang/protobuf v1.5.3 // indirect
-	github.com/golang/snappy v0.0.4 // indirect
 	github.com/google/flatbuffers v1.12.1 // indirect
 	github.com/google/go-cmp v0.6.0 // indirect
 	github.com/google/uuid v1.3.0 // indirect
@@ -48,7 +51,6 @@ require (
 	github.com/googleapis/enterprise-certificate-proxy v0.2.3 // indirect
 	github.com/googleapis/gax-go/v2 v2.7.1 // indirect
 	github.com/hashicorp/go-uuid v1.0.2 // indirect
-	github.com/janelia-flyem/go v0.0.0-20180718195536-d388bdc31871 // indirect
 	github.com/janelia-flyem/protolog v0.0.0-20191102211808-ce1a9ba02c03 // indirect
 	github.com/jcmturner/aescts/v2 v2.0.0 // indirect
 	github.com/jcmturner/dnsutils/v2 v2.0.0 // indirect
